@@ -28,6 +28,15 @@ In (1) and (2) a systematic block of edge patterns runs for every wrapper on eve
 (before, between, after the free ones; several; all), negative and at-a-bound fixed values, bound entries equal to zero,
 arguments as list / tuple / numpy array.  In the model "fixed at 0" is [Some 0] and "no bound" is [None]: truthiness has no
 counterpart there, and the theorems (C12_up_down_inverse, C12_down_up_inverse, ...) are stated for every [Some v].
+Keyword / optional-argument combinations (harness/props/c12_kw.py) run in (1) and (2) on every run for every wrapper: only
+lower_bound / only upper_bound / both / neither / None entries in one list, crossed with every way of giving fixed_params, in
+every spelling (left out, None, positional), every other optional keyword alone and combined; the scripted optimiser of that
+stream honours the box it is handed (Model/Optim.v scripted_clip) while its script proposes points beyond every bound, so that a
+bound that is not handed over shows as a model evaluation and a returned point beyond it (a failing input), and the real
+optimisers get data whose parameters lie beyond the given bound(s).  The signatures (parameter order, defaults) are pinned by
+a source obligation.  When a source obligation or the scripted correspondence of a wrapper breaks, a targeted search
+(resolve_broken) runs the keyword-combination streams on that wrapper with random boxes and every subset of fixed parameters
+before anything is reported as no-failing-input-found; violations that carry an input are listed first.
 """
 import ast, itertools, json, math, os, random, re
 from fractions import Fraction
@@ -398,6 +407,8 @@ def xnum_list(xs):
 
 def variants_of(c):
     """model variants a scripted case is compared with: 0 = the current code, 1.. = forms of the snapshot (Model/OptimCheck.v)"""
+    if c.get('call') is not None:
+        return (0,)               # the keyword-combination stream is compared with the model of the current code alone
     if c['fn'] == 'opt' and c.get('log_opt'):
         return (0, 1, 2)
     if c['fn'] in ('optimize_lbfgsb', 'optimize_log_lbfgsb', 'optimize_grid'):
@@ -439,11 +450,11 @@ def case_text(c, r, variant):
         # model may legitimately rank them the other way round, so the model is told which point the stub picked
         ret = chosen_index(orc)
     return ('{| c_fn := %s; c_log := %s; c_variant := %s; c_p0 := %s; c_lower := %s; c_upper := %s; c_fixed := %s; '
-            'c_multinom := %s; c_scale := %s; c_props := %s; c_ret := %s; c_full := %s; c_llm := %s; c_llp := %s; '
+            'c_multinom := %s; c_scale := %s; c_props := %s; c_ret := %s; c_full := %s; c_clip := %s; c_llm := %s; c_llp := %s; '
             'i_raised := %s; i_x := %s; i_f := %s; i_evals := %s; i_lo := %s; i_hi := %s; i_start := %s; i_trace := %s |}') % (
         FN_TAG[c['fn']], b(c.get('log_opt', False)), '%d%%nat' % variant, ql(c['p0'] or []), qoptlist(c['lower']), qoptlist(c['upper']), qoptlist(c['fixed']),
         b(c['multinom']), q(c['ll_scale'] if c['fn'] in SCALE_FORWARDED else 1), lib.qll(props),
-        'None' if ret is None else 'Some %d%%nat' % ret, b(c.get('full_output', True)), qll_text(c['llm']), qll_text(c['llp']),
+        'None' if ret is None else 'Some %d%%nat' % ret, b(c.get('full_output', True)), b(bool(c.get('clip'))), qll_text(c['llm']), qll_text(c['llp']),
         b(raised), ql(r['x']) if not raised else '[]', qopt(r['f']) if not raised else 'None',
         lib.qll(r['evals']) if not raised else '[]', xnum_list(orc.get('lo', [])) if not raised else '[]',
         xnum_list(orc.get('hi', [])) if not raised else '[]', ql(orc.get('start', [])) if not raised else '[]',
@@ -1249,8 +1260,66 @@ def report(ctx, c, failures, r, mode, seen):
             continue
         seen[key] = 1
         ctx.violation('%s%s%s (%s run) %s: %s' % (c['fn'], ' log_opt=True' if c.get('log_opt') else '', ('/' + c['algorithm']) if c.get('algorithm') else '',
-                                                 mode, inputs_text(c), msg),
-                      data={'mode': mode, 'case': c, 'impl': r, 'clause': clause, 'call': inputs_text(c)}, key=key)
+                                                 mode, call_text(c), msg),
+                      data={'mode': mode, 'case': c, 'impl': r, 'clause': clause, 'call': call_text(c)}, key=key)
+
+def call_text(c):
+    if c.get('call'):
+        from harness.props import c12_kw
+        return c12_kw.call_text(c)
+    return inputs_text(c)
+
+def scripted_case_clauses(ctx, c, r, seen):
+    """the property clauses on one finished scripted run; returns the number of failing clauses"""
+    fn = c['fn']
+    nfail = 0
+    if finite(r['x']):
+        # whatever the script: fixed parameters are returned and evaluated unchanged, and a wrapper whose objective
+        # carries the bounds never lets the model see a point outside them (C12_never_evaluates_out_of_bounds)
+        always = {'bounds'} if (fn in CFG and CFG[fn][3]) else set()
+        fails = clauses(ctx, dict(c), r, None, None, 'scripted', only=always)
+        nfail += len(fails)
+        report(ctx, dict(c), fails, r, 'scripted', seen)
+    if c.get('honours_contract') or fn == 'optimize_grid' and c.get('ret') is None:
+        spec = c['llm'] if c['multinom'] else c['llp']
+        if not finite(r['x']) or len(r['x']) != c['n']:
+            return nfail
+        ll_x = guard(quad_py(spec, r['x']))
+        ll_p0 = None
+        if c['p0'] is not None:
+            p0s = [c['p0'][i] if (c['fixed'] is None or c['fixed'][i] is None) else c['fixed'][i] for i in range(c['n'])]
+            ll_p0 = guard(quad_py(spec, p0s))
+        cc = dict(c)
+        fails = clauses(ctx, cc, r, ll_x, ll_p0, 'scripted')
+        orc = r.get('oracle') or {}
+        if not start_in_box(orc):
+            # the stub evaluates the start it is handed even when that lies outside the box it is handed (a real
+            # optimiser would clip it): evaluations outside the bounds are then the stub's doing
+            fails = [f for f in fails if f[0] not in ('model-evaluated-out-of-bounds', 'returned-free-parameter-out-of-bounds')]
+        nfail += len(fails)
+        report(ctx, cc, fails, r, 'scripted', seen)
+    return nfail
+
+def scripted_clauses_only(ctx, cases, seen):
+    """targeted search: scripted runs evaluated with the property clauses alone (no Coq); returns (failures, results by id)"""
+    for k, c in enumerate(cases):
+        c['id'] = k
+    res = run_driver('scripted', cases, 900)
+    byid = {r['id']: r for r in res}
+    nfail = 0
+    for c in cases:
+        r = byid[c['id']]
+        ctx.case(signature=('t', c['fn'], c.get('log_opt'), c['p0'], c['fixed'], c['lower'], c['upper'], c['props'], repr(c.get('call'))))
+        if 'error' in r:
+            nfail += 1
+            key = vkey(c, 'raises-' + r['error'].split(':')[0])
+            if key not in seen:
+                seen[key] = 1
+                ctx.violation('%s (scripted run) %s raises on a valid call: %s' % (c['fn'], call_text(c), r['error']),
+                              data={'mode': 'scripted', 'case': c, 'impl': r, 'call': call_text(c)}, key=key)
+            continue
+        nfail += scripted_case_clauses(ctx, c, r, seen)
+    return nfail, byid
 
 def run_scripted(ctx, cases, seen):
     res = run_driver('scripted', cases, 900)
@@ -1289,7 +1358,7 @@ def run_scripted(ctx, cases, seen):
         ctx.case(signature=('s', fn, c.get('log_opt'), c['p0'], c['fixed'], c['lower'], c['upper'], c['props'], c.get('grid'), c.get('p0_kinds'), c.get('p0_container'), c.get('grid_kinds')),
                  sample={'mode': 'scripted', 'fn': fn, 'log_opt': c.get('log_opt'), 'p0': c['p0'], 'fixed': c['fixed'], 'lower': c['lower'],
                          'upper': c['upper'], 'props': c['props'], 'impl': {k: r.get(k) for k in ('x', 'f', 'error')}})
-        for variant in variants_of(c):
+        for variant in (variants_of(c) if not c.get('no_coq') else ()):
             t = case_text(c, r, variant)
             if t is None:
                 ctx.count('scripted non-finite impl output (not sent to Coq)')
@@ -1307,28 +1376,7 @@ def run_scripted(ctx, cases, seen):
             ctx.count('scripted impl raised')
             raised[c['id']] = r['error']
             continue
-        if finite(r['x']):
-            # whatever the script: fixed parameters are returned and evaluated unchanged, and a wrapper whose objective
-            # carries the bounds never lets the model see a point outside them (C12_never_evaluates_out_of_bounds)
-            always = {'bounds'} if (fn in CFG and CFG[fn][3]) else set()
-            report(ctx, dict(c), clauses(ctx, dict(c), r, None, None, 'scripted', only=always), r, 'scripted', seen)
-        if c.get('honours_contract') or fn == 'optimize_grid' and c.get('ret') is None:
-            spec = c['llm'] if c['multinom'] else c['llp']
-            if not finite(r['x']) or len(r['x']) != c['n']:
-                continue
-            ll_x = guard(quad_py(spec, r['x']))
-            ll_p0 = None
-            if c['p0'] is not None:
-                p0s = [c['p0'][i] if (c['fixed'] is None or c['fixed'][i] is None) else c['fixed'][i] for i in range(c['n'])]
-                ll_p0 = guard(quad_py(spec, p0s))
-            cc = dict(c)
-            fails = clauses(ctx, cc, r, ll_x, ll_p0, 'scripted')
-            orc = r.get('oracle') or {}
-            if not start_in_box(orc):
-                # the stub evaluates the start it is handed even when that lies outside the box it is handed (a real
-                # optimiser would clip it): evaluations outside the bounds are then the stub's doing
-                fails = [f for f in fails if f[0] not in ('model-evaluated-out-of-bounds', 'returned-free-parameter-out-of-bounds')]
-            report(ctx, cc, fails, r, 'scripted', seen)
+        scripted_case_clauses(ctx, c, r, seen)
     results = ctx.coq_cases('scripted', HEADER, exprs, '(ocheck %s)' % q(TOL), TOL_TXT, shard=ctx.pick(40, 120), kind='scripted optimiser')
     # a case is fine when the model of the current code or a variant carrying a form of the snapshot reproduces it; all
     # cases of one wrapper must agree on the variant
@@ -1359,9 +1407,13 @@ def run_scripted(ctx, cases, seen):
                 ctx.violation('%s (scripted run) %s raises %s where the model completes' % (tag, inputs_text(c), raised[c['id']]),
                               data={'mode': 'scripted', 'case': c, 'impl': byid[c['id']], 'call': inputs_text(c)}, key=vkey(c, 'raises-' + raised[c['id']].split(':')[0]))
             elif nbad <= 3:
-                ctx.violation('the optimiser glue of %s disagrees with the model on a scripted run %s' % (tag, inputs_text(c)),
-                              data={'mode': 'scripted', 'case': c, 'impl': byid[c['id']], 'call': inputs_text(c)}, no_input=True,
-                              broken='scripted correspondence %s' % tag)
+                # held back: first a failing input of the property itself is searched for on this wrapper (resolve_broken)
+                PENDING.append({'fn': c['fn'],
+                                'what': 'the optimiser glue of %s disagrees with the model on a scripted run %s' % (tag, call_text(c)),
+                                'data': {'mode': 'scripted', 'case': c, 'impl': byid[c['id']], 'call': call_text(c)},
+                                'broken': 'scripted correspondence %s' % tag})
+            if not ok:
+                BROKEN_FNS.add(c['fn'])
     for tag, good in tag_variants.items():
         ctx.obligation('all scripted cases of %s agree with one model variant' % tag, bool(good), 'correspondence', repr(good))
         if good:
@@ -1369,6 +1421,9 @@ def run_scripted(ctx, cases, seen):
             ctx.notes.append('%s: source agrees with model variant %d (%s)' % (tag, v, 'current, repaired form' if v == 0 else 'form of the snapshot, defective'))
             ctx.count('variant %s=%d' % (tag, v))
     return byid
+
+PENDING = []          # violations without a failing input, held back until the targeted search has run
+BROKEN_FNS = set()    # wrappers whose source obligation / correspondence broke
 
 def run_real(ctx, cases, seen):
     res = run_driver('real', cases, 1500)
@@ -1707,6 +1762,8 @@ def gen_perturb(ctx):
         us = [rng.randint(0, 63) / 64.0 for _ in range(n)]
         ulo, uhi = list(lower), list(upper)
         s = rng.random()
+        if k < 16:
+            s = [0.05, 0.15, 0.3, 0.9][k % 4]             # on every run: only upper_bound, only lower_bound, None entries, both
         if s < 0.1:
             ulo = None
         elif s < 0.2:
@@ -1806,14 +1863,36 @@ def run(ctx):
         'nlopt.RoundoffLimited handler, inequality/equality constraints, verbose output and output_file are not modelled']
     ctx.trusted += ['Section variables of Proofs/OptimProofs.v: the optimiser O with hypothesis `contract` (C12_opt_contract, C12_scipy_contract, C12_grid_contract); '
                     'the likelihood oracles ll_multinom, ll_plain : list R -> option R (None = NaN)']
+    ctx.rule += ('; keyword / optional-argument combinations (every run, every wrapper; harness/props/c12_kw.py): {only lower_bound, only upper_bound, both, neither, '
+                 'a None entry in one list only} x {fixed_params left out / None / list of None / one fixed / two fixed} x {multinom x ll_scale x full_output in rotation}, '
+                 'each call spelled with absent arguments left out vs None, bounds by keyword vs positionally, defaults left out vs given; every other optional keyword '
+                 '(verbose, flush_delay, epsilon, gtol, pgtol, maxiter, func_args, func_kwargs, output_file, constraints, nlopt limits) alone, in pairs, all at once; scripted: '
+                 'a box-honouring stub (scripted_clip) with proposals beyond both ends of every free parameter and likelihoods peaking beyond the box; real: every '
+                 'optimiser with the data\'s parameters beyond the given bound(s)')
+    ctx.assumptions += ['keyword-combination stream: calls that differ only in spelling (left out / None / positional) or in a keyword the property does not speak about '
+                        '(verbose, flush_delay, tolerances, iteration limits, func_args, func_kwargs, output_file, never-binding constraints) must give the same scripted run '
+                        'as the keyword form, which is the call compared with the Coq model']
+    ctx.trusted += ['the clipping scripted optimiser of the keyword-combination stream is the model\'s scripted_clip (C12_clipping_script_honours_contract: it satisfies the '
+                    'contract for every script, so that C12_scipy_plain_evaluations_within_bounds / C12_opt_evaluations_within_bounds apply to every such run)']
+    from harness.props import c12_kw
     seen = {}
+    del PENDING[:]
+    BROKEN_FNS.clear()
     if ctx.replay:
         rp = json.load(open(ctx.replay))
         inp = rp.get('input') or {}
         mode, c = inp.get('mode'), inp.get('case')
         if c is not None:
             c = dict(c); c['id'] = 0
-            if mode == 'scripted':
+            c.pop('no_coq', None)
+            if inp.get('base_case') is not None and mode == 'scripted':
+                # a call whose spelling changed the run: both forms again
+                bc = dict(inp['base_case']); bc['id'] = 1; bc.pop('no_coq', None)
+                c['kw_base'] = 0
+                byid = run_scripted(ctx, [c, bc], seen)
+                c12_kw.check_spellings(ctx, [bc], [c], byid, seen, 'scripted')
+            elif mode == 'scripted':
+                c.pop('kw_base', None)
                 run_scripted(ctx, [c], seen)
             elif mode == 'real':
                 run_real(ctx, [c], seen)
@@ -1821,12 +1900,100 @@ def run(ctx):
                 run_perturb(ctx, [c], seen)
             elif mode == 'project':
                 run_project(ctx, [c], seen)
+            flush_pending(ctx)
             return
     descriptor_obligations(ctx)
+    c12_kw.signature_obligations(ctx)
+    BROKEN_FNS.update(fns_named_by_failed_obligations(ctx))
     run_project(ctx, gen_project(ctx), seen)
-    run_scripted(ctx, gen_scripted(ctx), seen)
-    run_real(ctx, gen_real(ctx), seen)
+    # scripted: the generated streams, then the keyword-combination stream (bases go to Coq, their other spellings must give the same run)
+    cases = gen_scripted(ctx)
+    kb, kv = c12_kw.gen_kw_scripted(ctx, reps=ctx.pick(1, 3))
+    for c in kb + kv:
+        c['id'] = len(cases)
+        cases.append(c)
+    for c in kv:
+        c['no_coq'] = True
+    byid = run_scripted(ctx, cases, seen)
+    c12_kw.check_spellings(ctx, kb, kv, byid, seen, 'scripted')
+    for c in kb + kv:
+        ctx.count('scripted keyword combination: bounds %s, fixed_params %s' % (c['kw']['bounds'], c['kw']['fixed']))
+        msg = c12_kw.extra_args_fail(c, byid[c['id']])
+        if msg is not None:
+            report(ctx, c, [('model-called-with-wrong-extra-arguments', msg)], byid[c['id']], 'scripted', seen)
+    # real
+    cases = gen_real(ctx)
+    rb, _ = c12_kw.gen_kw_real(ctx, reps=ctx.pick(1, 2))
+    for c in rb:
+        c['id'] = len(cases)
+        cases.append(c)
+    byid = run_real(ctx, cases, seen)
+    for c in rb:
+        ctx.count('real keyword combination: bounds %s, fixed_params %s' % (c['kw']['bounds'], c['kw']['fixed']))
+        msg = c12_kw.extra_args_fail(c, byid[c['id']])
+        if msg is not None:
+            report(ctx, c, [('model-called-with-wrong-extra-arguments', msg)], byid[c['id']], 'real', seen)
     probes(ctx, seen)
     run_perturb(ctx, gen_perturb(ctx), seen)
+    resolve_broken(ctx, seen)
     for k, v in seen.items():
         ctx.count('violations of kind ' + k, v)
+
+# ------------------------------------------------------------------------------------------------
+# a broken source obligation / correspondence of a wrapper: search for a failing input of the property on that wrapper first
+
+ALL_WRAPPERS = ['opt'] + SCIPY_FNS + ['optimize_grid']
+SHARED_HELPERS = ['_object_func_log', '_object_func', '_project_params_down', '_project_params_up']
+
+def fns_named_by_failed_obligations(ctx):
+    out = set()
+    for o in ctx.obligations:
+        if o['ok'] or o['kind'] != 'translator':
+            continue
+        name = o['name']
+        if any(re.search(r'(?<![A-Za-z_])%s(?![A-Za-z_])' % re.escape(h), name) for h in SHARED_HELPERS) or 'parse dadi/' in name:
+            out.update(ALL_WRAPPERS)
+            continue
+        for fn in sorted(ALL_WRAPPERS, key=len, reverse=True):
+            if re.search(r'(?<![A-Za-z_])%s(?![A-Za-z_])' % re.escape(fn), name):
+                out.add(fn)
+                break
+    return out
+
+def explained(ctx, fn):
+    """a failing input of the property on this wrapper has been reported (listed known findings do not count)"""
+    known, _ = lib.load_known(ctx.prop)
+    known_keys = {f['key'] for f in known}
+    for v in ctx.violations:
+        if v.get('no_input') or v.get('key') in known_keys:
+            continue
+        case = (v.get('data') or {}).get('case') or {}
+        if case.get('fn') == fn:
+            return True
+    return False
+
+def flush_pending(ctx):
+    for pnd in PENDING:
+        if not explained(ctx, pnd['fn']):
+            ctx.violation(pnd['what'], data=pnd['data'], no_input=True, broken=pnd['broken'])
+    del PENDING[:]
+    # violations that carry a failing input come first
+    ctx.violations.sort(key=lambda v: bool(v.get('no_input')))
+
+def resolve_broken(ctx, seen):
+    from harness.props import c12_kw
+    todo = sorted(fn for fn in BROKEN_FNS if fn in ALL_WRAPPERS and not explained(ctx, fn))
+    if todo:
+        ctx.notes.append('targeted search (keyword combinations, scripts and data beyond the bounds) on: ' + ', '.join(todo))
+        def run_s(cases, bases, variants):
+            nfail, byid = scripted_clauses_only(ctx, cases, seen)
+            nfail += c12_kw.check_spellings(ctx, bases, variants, byid, seen, 'scripted')
+            return nfail
+        def run_r(cases):
+            n0 = len(ctx.violations)
+            for k, c in enumerate(cases):
+                c['id'] = 100000 + k
+            run_real(ctx, cases, seen)
+            return len(ctx.violations) - n0
+        c12_kw.targeted_search(ctx, set(todo), seen, run_s, run_r)
+    flush_pending(ctx)
